@@ -453,6 +453,7 @@ func (g *Gen) loopHead(h *ssa.BasicBlock, k int, fpreds []*ssa.BasicBlock) {
 				env := g.fnEnv(nil)
 				env.at = p.Instrs[len(p.Instrs)-1]
 				g.bindPhis(env, h, p)
+				env.sk, env.skPos = &skCtx{id: skID(g.name, k, c)}, true
 				t, err := g.eval(c.Expr, env)
 				if err != nil {
 					g.bindFail(c, err)
@@ -540,6 +541,7 @@ func (g *Gen) loopHead(h *ssa.BasicBlock, k int, fpreds []*ssa.BasicBlock) {
 			env := g.fnEnv(nil)
 			env.at = h.Instrs[0]
 			g.bindPhis(env, h, nil)
+			env.sk, env.skPos = &skCtx{id: skID(g.name, k, c), assuming: true}, true
 			t, err := g.eval(c.Expr, env)
 			if err != nil {
 				continue
@@ -590,6 +592,11 @@ func (g *Gen) bindPhis(env *Env, h *ssa.BasicBlock, from *ssa.BasicBlock) {
 	}
 }
 
+// skID names the Skolem functions of a loop-invariant clause (stable across the evaluations of that clause).
+func skID(fn string, loop int, c *Clause) string {
+	return sanitize(fmt.Sprintf("%s_l%d_%s", shortKey(fn), loop, c.Label))
+}
+
 func (g *Gen) backEdge(b, h *ssa.BasicBlock, k int) {
 	spec := g.loopSpec(k)
 	saveReach := g.curReach
@@ -599,6 +606,7 @@ func (g *Gen) backEdge(b, h *ssa.BasicBlock, k int) {
 			env := g.fnEnv(nil)
 			env.at = b.Instrs[len(b.Instrs)-1]
 			g.bindPhis(env, h, b)
+			env.sk, env.skPos = &skCtx{id: skID(g.name, k, c)}, true
 			t, err := g.eval(c.Expr, env)
 			if err != nil {
 				g.bindFail(c, err)
